@@ -55,7 +55,7 @@ def render_stmt(st) -> list[str]:
     if k == 'unmute':
         return ['#unmute']
     if k == 'create_memzone':
-        return [f'#create_memzone {st[1]} {st[2]} {st[3]}']
+        return [f'#create_memzone {st[1]} ${st[2]:x} ${st[3]:x}']
     if k == 'include':
         return [f'#include "{st[1]}"']
     if k == 'define':
@@ -113,11 +113,20 @@ class Ref:
             self.zones[n] = [zv(s), zv(e)]
         self.cursor = {n: z[0] for n, z in self.zones.items()}
         self.cursor['GLOBAL'] = zv(origin)
+        g0 = self.zones['GLOBAL']
+        self.origin_outside_global = z3.Or(zv(origin) < g0[0], zv(origin) > g0[1])
         self.labels = {}
         self.recs: list[Rec] = []
         self.mute = 0
         self.defined = set(defined)
         self.illegal = []            # z3 Bools: some org target / cursor leaves its zone (non-byte edges)
+        self.must_reject = []        # z3 Bools: stated reasons for rejecting the program (C05 zone declarations)
+        self.address_bits = address_bits
+        for n, z in self.zones.items():
+            self.must_reject.append(z3.Or(z[0] > z[1], z[1] > zv(gmax)))
+            # documentation: every memory zone must be contained in GLOBAL (justifies, but the statement does not
+            # demand, rejecting a predefined zone that is not)
+            self.illegal.append(z3.Or(z[0] < self.zones['GLOBAL'][0], z[1] > self.zones['GLOBAL'][1]))
         self.pending = []            # (rec, stmt) whose bytes need label values
         self.data_blocks = list(data_blocks)   # (name, address, size, value)
         self._walk_file(main)
@@ -207,8 +216,15 @@ class Ref:
                     continue
                 if k == 'create_memzone':
                     s, e = zv(st[2]), zv(st[3])
-                    self.zones[st[1]] = [s, e]
-                    self.cursor[st[1]] = s
+                    g = self.zones['GLOBAL']
+                    bad = z3.Or(s > e, e > zv((1 << self.address_bits) - 1), s < g[0], e > g[1])
+                    if st[1] in self.zones:
+                        bad = z3.BoolVal(True)
+                    self.must_reject.append(bad)
+                    self.illegal.append(bad)
+                    if st[1] not in self.zones:
+                        self.zones[st[1]] = [s, e]
+                        self.cursor[st[1]] = s
                     continue
                 if k == 'mute':
                     self.mute += 1
@@ -275,7 +291,7 @@ class Ref:
         """Sufficient condition for 'nothing leaves its zone': every assembled line *starts* inside its zone and
         GLOBAL and ends no later than the zone end; origin targets are inside GLOBAL and their zone."""
         g = self.zones['GLOBAL']
-        cs = [z3.Not(c) for c in self.illegal]
+        cs = [z3.Not(c) for c in self.illegal] + [z3.Not(self.origin_outside_global)]
         for r in self.recs:
             if r.kind == 'predef':
                 continue
